@@ -4,7 +4,7 @@ From Coq Require Import List NArith Bool Lia.
 Import ListNotations.
 From Snaps Require Import Base.Bytes Base.Assoc.
 From Snaps Require Import Model.PathModel Model.Api Model.Natural Model.Clean Model.RunFilter.
-From Snaps Require Import Proofs.BytesP Proofs.RunFilterP.
+From Snaps Require Import Model.GoRun Proofs.BytesP Proofs.RunFilterP Proofs.GoRunP.
 From Snaps Require Import Proofs.FrameP Proofs.CleanEntriesP Proofs.CleanFilesP Proofs.CleanRunP.
 
 (* a snaps.Skip of test n protects n itself and every descendant n/... *)
@@ -42,6 +42,44 @@ Theorem C08_run_pattern_refuted :
   test_skipped_run [] (B "TestZeta|1") (B "TestAlpha - 1") = false.
 Proof. vm_compute. repeat split. Qed.
 Print Assumptions C08_run_pattern_refuted.
+
+(* THE -run CLAUSE FOR ENTRIES. [go_selects] (Model/GoRun.v) is what `go test -run p` executes: the pattern is split at '|',
+   every alternative at '/', element i is matched against element i of the test name (tied to the real runner on every run of
+   this check). go-snaps protects an entry unless the WHOLE pattern, as one regexp, matches the whole id "name - k". For the
+   patterns of [safe_pattern] - single-level alternatives of the shapes ^Lit (no '/', no space), ^Lit$ (no space) and Lit$
+   (no space, some non-digit) - an entry of a test that Go did NOT select is always protected, whatever the ordinal and the skip
+   list. (^Name and ^Name$ are what people type and what editors generate.) Outside that class the clause is false:
+   C08_run_pattern_refuted above and the necessity examples below. *)
+Theorem C08_run_safe_pattern_sound : forall p name k,
+  safe_pattern p = true -> re_match p (snapshot_occ_fmt name k) = true -> go_selects p name = true.
+Proof. exact safe_pattern_sound. Qed.
+Print Assumptions C08_run_safe_pattern_sound.
+Theorem C08_run_unselected_entry_protected : forall skipped p name k,
+  safe_pattern p = true -> go_selects p name = false -> test_skipped_run skipped p (snapshot_occ_fmt name k) = true.
+Proof. exact unselected_entry_protected. Qed.
+Print Assumptions C08_run_unselected_entry_protected.
+(* for pure prefix patterns (^Lit alternatives) go-snaps' check IS Go's selection, so obsolete entries of selected tests are
+   also still reported *)
+Theorem C08_run_prefix_pattern_equiv : forall p name k,
+  prefix_pattern p = true -> re_match p (snapshot_occ_fmt name k) = go_selects p name.
+Proof. exact prefix_pattern_equiv. Qed.
+Print Assumptions C08_run_prefix_pattern_equiv.
+(* necessity of every side condition of the class: an unanchored literal, a digit suffix, a digit alternative, a literal with a space *)
+Example C08_run_unsafe_shapes :
+  (re_match (B "Sub2") (snapshot_occ_fmt (B "TestAlpha/Sub2") 1) = true /\ go_selects (B "Sub2") (B "TestAlpha/Sub2") = false) /\
+  (re_match (B "1$") (snapshot_occ_fmt (B "TestBeta") 1) = true /\ go_selects (B "1$") (B "TestBeta") = false) /\
+  (re_match (B "TestZeta|1") (snapshot_occ_fmt (B "TestAlpha") 1) = true /\ go_selects (B "TestZeta|1") (B "TestAlpha") = false) /\
+  (re_match (B "^TestA -") (snapshot_occ_fmt (B "TestA") 1) = true /\ go_selects (B "^TestA -") (B "TestA") = false).
+Proof. vm_compute. repeat split. Qed.
+(* non-vacuity: a three-alternative safe pattern; TestAlpha/Sub1 is selected and matched, TestGamma is unselected and protected
+   for every ordinal and skip list *)
+Example C08_run_safe_example : forall skipped k,
+  safe_pattern (B "^TestAl|^TestZeta$|Beta$") = true /\
+  (re_match (B "^TestAl|^TestZeta$|Beta$") (snapshot_occ_fmt (B "TestAlpha/Sub1") k) = true /\
+   go_selects (B "^TestAl|^TestZeta$|Beta$") (B "TestAlpha/Sub1") = true) /\
+  (go_selects (B "^TestAl|^TestZeta$|Beta$") (B "TestGamma") = false /\
+   test_skipped_run skipped (B "^TestAl|^TestZeta$|Beta$") (snapshot_occ_fmt (B "TestGamma") k) = true).
+Proof. intros skipped k. split; [exact ex_pattern_safe|]. split; [exact (ex_sound_applies k)|exact (ex_unselected_protected skipped k)]. Qed.
 
 (* for a WHOLE Clean run: the entries of a test that called a snaps.Skip* wrapper, and of its descendants, survive in every mode
    and are not reported - whatever the registry says *)
